@@ -346,6 +346,14 @@ func (s *Solver) OneShot(pc []*Term, extra []*Term, vars []*Term, timeoutS int) 
 		txt = string(out)
 		first = strings.TrimSpace(strings.SplitN(txt, "\n", 2)[0])
 	}
+	if !hasFP && first != "sat" && first != "unsat" {
+		// third attempt for multiply/divide kernels: cvc5's integer encoding of bit-vectors
+		// (mod 2^k semantics kept), which decides some constant multiplications in well under a
+		// second where both bit-blasters time out
+		out, _ := exec.Command("cvc5", "--produce-models", "--solve-bv-as-int=sum", "--tlimit=20000", f.Name()).Output()
+		txt = string(out)
+		first = strings.TrimSpace(strings.SplitN(txt, "\n", 2)[0])
+	}
 	if hasFP && first != "sat" && first != "unsat" {
 		// second opinion for floating-point queries (symfpu bit-blasting decides some divisions
 		// by constants that z3 does not)
